@@ -178,6 +178,7 @@ type frame struct {
 	curBlock *ssa.BasicBlock
 	outerOpen []string // `allocated before loop L` predicates of the loops open in the callers
 	fvOuter *frame
+	parent *frame // inlining frame (nil for the function under proof)
 	fvTop  bool
 	fvmap  map[*ssa.FreeVar]ssa.Value // modifies analysis of a closure body: free variable -> captured value in the enclosing function
 }
@@ -1034,10 +1035,39 @@ func (f *frame) setVal(v ssa.Value, t *Term) {
 // ---- loops -------------------------------------------------------------------------
 
 func (f *frame) loopContract(li *loopInfo) *LoopContract {
-	if f.fc == nil || f.fc.Loops == nil {
+	if f.fc == nil {
+		// a loop of an inlined callee: the contract of the function under proof may carry its invariants
+		// (`loop CALLEE.N ...`)
+		if f.topFC != nil && f.parent != nil && f.fn != nil {
+			for i, c := range f.topFC.InlCallees {
+				if c == f.fn.Name() {
+					return f.topFC.Loops[1000*(i+1)+li.Ord]
+				}
+			}
+		}
+		return nil
+	}
+	if f.fc.Loops == nil {
 		return nil
 	}
 	return f.fc.Loops[li.Ord]
+}
+
+// topFrame is the frame of the function under proof.
+func (f *frame) topFrame() *frame {
+	t := f
+	for t.parent != nil {
+		t = t.parent
+	}
+	return t
+}
+
+// loopLabel names a loop in obligation labels: loopN, or loopCALLEE.N for a loop of an inlined callee.
+func (f *frame) loopLabel(li *loopInfo) string {
+	if f.fc == nil && f.parent != nil && f.fn != nil {
+		return fmt.Sprintf("loop%s.%d", f.fn.Name(), li.Ord)
+	}
+	return fmt.Sprintf("loop%d", li.Ord)
 }
 
 // bindLoopVars resolves the declared locals of a loop contract to SSA values at the header.
@@ -1062,8 +1092,10 @@ func (f *frame) loopVarValue(li *loopInfo, name string, phiVals map[*ssa.Phi]*Va
 	}
 	// <name>_cur: the phi <name> at this loop head when a parameter of the same name exists (the bare
 	// name then denotes the parameter, i.e. the ENTRY value)
+	wantCur := false
 	if strings.HasSuffix(name, "_cur") {
 		name = strings.TrimSuffix(name, "_cur")
+		wantCur = true
 	}
 	for _, ins := range li.Header.Instrs {
 		if phi, ok := ins.(*ssa.Phi); ok && phi.Comment == name {
@@ -1072,9 +1104,20 @@ func (f *frame) loopVarValue(li *loopInfo, name string, phiVals map[*ssa.Phi]*Va
 			}
 		}
 	}
-	for _, p := range f.fn.Params {
-		if p.Name() == name {
-			return f.val(p)
+	// a loop of an inlined callee: a `_cur` name that is not a phi here denotes the named local cell
+	// (captured variable) of an enclosing frame
+	if f.fc == nil && f.parent != nil && wantCur {
+		for a := f.parent; a != nil; a = a.parent {
+			if v := a.namedAlloc(name); v != nil {
+				return v, nil
+			}
+		}
+	}
+	if !(f.fc == nil && f.parent != nil && wantCur) {
+		for _, p := range f.fn.Params {
+			if p.Name() == name {
+				return f.val(p)
+			}
 		}
 	}
 	// a phi with that name in a dominating block, or a named alloc
@@ -1111,6 +1154,13 @@ func (f *frame) loopVarValue(li *loopInfo, name string, phiVals map[*ssa.Phi]*Va
 	// The local may have been renamed in the code: when exactly one declared variable and exactly one
 	// header phi of the same type are left unmatched by name, they are bound to each other. (A wrong
 	// binding cannot make a proof pass that should fail - invariants are proved, never assumed first.)
+	if f.fc == nil && f.parent != nil {
+		for a := f.parent; a != nil; a = a.parent {
+			if v := a.namedAlloc(name); v != nil {
+				return v, nil
+			}
+		}
+	}
 	if phi := f.renamedPhi(li, name); phi != nil {
 		f.e.warn("%s: loop %d: declared variable %q bound to the local %q (same type, the only unmatched pair)", f.fn.Name(), li.Ord, name, phi.Comment)
 		if v, ok := phiVals[phi]; ok {
@@ -1119,6 +1169,27 @@ func (f *frame) loopVarValue(li *loopInfo, name string, phiVals map[*ssa.Phi]*Va
 		return f.val(phi)
 	}
 	return nil, fmt.Errorf("loop %d of %s: no variable %q at the loop header (known: phis %s)", li.Ord, f.fn.Name(), name, phiNames(li.Header))
+}
+
+// namedAlloc: the local cell (Alloc) of this frame's function with the given source name, as a pointer
+// value; nil when there is none or it has not been executed yet.
+func (f *frame) namedAlloc(name string) *Val {
+	if f.fn == nil {
+		return nil
+	}
+	for _, b := range f.fn.Blocks {
+		for _, ins := range b.Instrs {
+			if a, ok := ins.(*ssa.Alloc); ok && a.Comment == name {
+				pv, ok := f.vals[a]
+				if !ok || pv == nil {
+					continue
+				}
+				et := a.Type().(*types.Pointer).Elem()
+				return &Val{T: pv.T, P: pv.P, Typ: types.NewPointer(et)}
+			}
+		}
+	}
+	return nil
 }
 
 // renamedPhi finds the unique header phi that can stand for the declared loop variable name when no
@@ -1205,14 +1276,18 @@ func (f *frame) evalLoopClause(li *loopInfo, lc *LoopContract, c *Clause, phiVal
 		vars = append(vars, v)
 	}
 	var params []*Val
-	for _, p := range f.fn.Params {
-		v, err := f.val(p)
+	pf, pfc := f, f.fc
+	if f.fc == nil && f.parent != nil {
+		pf, pfc = f.topFrame(), f.topFC
+	}
+	for _, p := range pf.fn.Params {
+		v, err := pf.val(p)
 		if err != nil {
 			return nil, err
 		}
 		params = append(params, v)
 	}
-	return f.evalClause(f.fc, c, params, nil, vars, f.st, f.oldSt0())
+	return f.evalClause(pfc, c, params, nil, vars, f.st, f.oldSt0())
 }
 
 // oldSt0 is the pre-state of the function being verified.
@@ -1249,7 +1324,7 @@ func (f *frame) enterLoop(h *ssa.BasicBlock, li *loopInfo, cs []contrib) error {
 			if err != nil {
 				return err
 			}
-			f.oblige("inv-entry", fmt.Sprintf("loop%d:%s", li.Ord, inv.Label), t, h.Instrs[0].Pos())
+			f.oblige("inv-entry", f.loopLabel(li)+":"+inv.Label, t, h.Instrs[0].Pos())
 		}
 	} else if f.fc != nil {
 		f.e.warn("%s: loop %d has no invariant block (treated as invariant true)", f.fn.Name(), li.Ord)
@@ -1291,6 +1366,9 @@ func (f *frame) enterLoop(h *ssa.BasicBlock, li *loopInfo, cs []contrib) error {
 	// `loop N modifies` entries, resolved to (key, reference) in the state before the loop
 	declared := map[string][]*Term{}
 	var loopFrames []loopFrame
+	if lc != nil && len(lc.Modifies) > 0 && f.fc == nil {
+		return unsupported("`loop modifies` on a loop of an inlined callee (%s)", f.fn.Name())
+	}
 	if lc != nil && len(lc.Modifies) > 0 {
 		tmp := &FuncContract{Modifies: lc.Modifies, Recv: f.fc.Recv, Params: f.fc.Params, File: f.fc.File, Line: f.fc.Line}
 		mls, err := parseModifies(tmp)
@@ -1392,7 +1470,7 @@ func (f *frame) enterLoop(h *ssa.BasicBlock, li *loopInfo, cs []contrib) error {
 			if err != nil {
 				return err
 			}
-			f.oblige("loop-assert", fmt.Sprintf("loop%d:%s", li.Ord, a.Label), t, h.Instrs[0].Pos())
+			f.oblige("loop-assert", f.loopLabel(li)+":"+a.Label, t, h.Instrs[0].Pos())
 			f.assume(t)
 		}
 	}
@@ -1436,7 +1514,7 @@ func (f *frame) backEdge(from, h *ssa.BasicBlock, cond *Term) error {
 		if err != nil {
 			return err
 		}
-		f.oblige("inv-step", fmt.Sprintf("loop%d:%s", li.Ord, inv.Label), t, from.Instrs[len(from.Instrs)-1].Pos())
+		f.oblige("inv-step", f.loopLabel(li)+":"+inv.Label, t, from.Instrs[len(from.Instrs)-1].Pos())
 	}
 	for _, lf := range hi.frames {
 		cur := f.st.m[lf.key]
@@ -1456,7 +1534,7 @@ func (f *frame) backEdge(from, h *ssa.BasicBlock, cond *Term) error {
 		if err != nil {
 			return err
 		}
-		f.oblige("decreases", fmt.Sprintf("loop%d", li.Ord), And(Ge(hi.measure, IntLit(0)), Lt(m, hi.measure)), from.Instrs[len(from.Instrs)-1].Pos())
+		f.oblige("decreases", f.loopLabel(li), And(Ge(hi.measure, IntLit(0)), Lt(m, hi.measure)), from.Instrs[len(from.Instrs)-1].Pos())
 	}
 	return nil
 }
